@@ -249,7 +249,11 @@ def rat(x) -> Fraction:
     f = float(x)
     if f != f or f in (float('inf'), float('-inf')):
         raise Inconclusive(f'non-finite float {f} entered REAL arithmetic')
-    return Fraction(repr(f))
+    r = repr(f)
+    digits = len(r.split('e')[0].replace('-', '').replace('.', '').lstrip('0'))
+    if digits >= 15:
+        return Fraction(f)   # a computed value: its exact binary value
+    return Fraction(r)       # a literal-like value (0.1, 0.005, 2.5): the decimal it was written as
 
 
 def _is_intlike(x):
